@@ -43,6 +43,12 @@ PROP = {
         "GunYu.Props.C03.footer_roundtrip",
         "GunYu.Props.C03.ttl_absolute",
         "GunYu.Props.C03.replay_db",
+        "GunYu.Props.C03.full_sync_partial",
+        "GunYu.Props.C03.full_sync_key",
+        "GunYu.Props.C03.fanout_workers_irrelevant",
+        "GunYu.Props.C03.oracle_keys_commute",
+        "GunYu.Props.C03.fanout_parallel_partial",
+        "GunYu.Props.C03.fanout_parallel",
     ],
     "expected_facts": {"crc64tab_len": 256, "rdb_consts": EXPECTED_RDB_CONSTS},
     "harness": [
@@ -127,16 +133,32 @@ PROP = {
         "Not yet proved (stream_roundtrip_stmt): length/last-id/first-id/max-deleted/entries-added -> XSETID, consumer groups "
         "and PELs -> XGROUP/XCLAIM, IDMP skipping, and the replay of those commands through the oracle; these are covered "
         "by encoder spec + decoder model + correspondence + the keyspace monitor only",
-        "full_sync_partial: the per-value theorems (string/container round trips, expand_roundtrip, raw_is_encode, "
-        "chunked_roundtrip, restore_path, expand_path, ttl_absolute, replay_db, dump_payload) and the frame theorems "
-        "(header_roundtrip, footer_roundtrip; the opcodes before a key are covered inside chunked_roundtrip's next_at_key) are not "
-        "yet composed into ONE theorem over parseRdb(rdbFile f) + fanOut for a whole dataset (AUX/SELECTDB/RESIZEDB/slot-info/"
-        "function items between keys, multi-DB target state); that composition is covered by correspondence and the monitor",
-        "fanout_parallel_partial: fanOut_keeps_order is close to the definition of the model's fan-out (fanOutTrace comes from "
-        "the same recursion; it says a worker's log is append-only and extended only by its own entries, in a SEQUENTIAL fold "
-        "with one shared existence table) and fanOut_same_key is one line; that the final keyspace does not depend on "
-        "`parallel` (entries of different keys commute, real goroutine interleavings) is not proved, only exercised "
-        "(parallel 1-4 against one keyspace monitor, per-worker request logs)",
+        "full_sync_partial (PROVED for the datasets below; the full statement is the def full_sync_stmt): ONE theorem over a "
+        "whole file - sendRdb(parseRdb(rdbFile f)) with one worker, its request log applied to the multi-database oracle "
+        "(RedisSem.applyReqs: SELECT, SCRIPT/FUNCTION = no keyspace effect, keyspace commands on the selected DB) from empty "
+        "databases leaves in every target DB exactly the unfiltered keys of f mapped there, in file order, each with its value "
+        "(expanded logical value, or the object RESTORE creates from the byte-exact payload) and the TTL of its absolute "
+        "expiry - for any RDB version 1..13, any number of DBs, AUX / SELECTDB / RESIZEDB / slot-info / function items "
+        "between keys, EXPIRETIME(_MS)/IDLE/FREQ, every string/list/set/zset/hash encoding, hash tables split into chunks at "
+        "ANY threshold, any target version/fnExists/RESTORE on-off/MaxProtoBulkLen/TargetDb/DbMap/clock reading/DB-key-slot "
+        "filter. NOT carried (hypotheses of the theorem): stream values and module values (type 7) and module aux items "
+        "(missing: stream_roundtrip_stmt - XSETID/XGROUP/XCLAIM through the oracle - and a Next lemma for skipModuleValue "
+        "over modulePayload); the `Bad data format` fall-back (hload: with RESTORE on the target loads the value types; the "
+        "oracle has no error replies); ReplaceHashTag (hrht); a clock that advances during the replay (htick: tick = 0; "
+        "ttl_absolute holds for every reading); DB maps that send a DB to a negative index (hdb) or merge DBs holding the "
+        "same key (hdistinct); more than one worker (hpar, see fanout_parallel_partial). Those stay covered by "
+        "correspondence and the keyspace monitor",
+        "fanout_parallel (PROVED for the datasets of full_sync_partial; listed here for what it leaves open): for the target "
+        "with one connection per worker (RedisSem.MState/applySched: own selected DB per connection, shared keyspaces, "
+        "atomic requests) and parallel = n >= 1, EVERY schedule of the n request logs that keeps each worker's own order "
+        "succeeds and leaves under every key of every DB the value and TTL of the snapshot-order result, which holds exactly "
+        "the expected keyspace (fanout_workers_irrelevant: worker count irrelevant for ANY entries; oracle_keys_commute: "
+        "plain commands on different keys commute; fanout_parallel_partial: the snapshot-order schedule; fanout_parallel: "
+        "all interleavings). Open: the same for streams / module values (not carried, see full_sync_partial); the model "
+        "computes all logs in ONE sequential fold with a shared existence table (what the key-exists probes would answer) - "
+        "that the replies a worker really gets under an interleaving equal that table is argued (a key belongs to one "
+        "worker) but not part of the theorem; a worker that fails cancels the others (not modelled); fanOut_keeps_order / "
+        "fanOut_same_key stay close to the definition of the model's fan-out",
         "existing_key_partial: expand_path / expand_path_final / expand_roundtrip_frame are for a key that does not exist on "
         "the target; the probe+DEL branch for an existing key under `replace` is in the model and the correspondence "
         "(pre-populated keys) but its theorem belongs to C20; raw_is_encode has no counterpart for streams and modules "
